@@ -45,6 +45,15 @@ def run_real(ids, styles, nums, sizes, variant=0, data=False):
     cards = s4.make_cards(styles, nums, phantoms=phant, votes_variant=variant)
     cons = s4.make_contests(ids, sizes, cards_per={c: max(1, sum(1 for s in styles if c in s)) for c in ids})
     try:
+        # the Contest objects were used before (an earlier draw with every card of every contest, on other card objects):
+        # nothing of that draw may survive in the thresholds of this one
+        for c in ids:
+            cons[c].sample_size = sum(1 for s in styles if c in s)
+        CVR.consistent_sampling(s4.make_cards(styles, nums), cons)
+        for c in ids:
+            cons[c].sample_size = sizes[c]
+            if sizes[c] == 0:
+                cons[c].sample_threshold = None  # a contest without a sample has no threshold to compare
         sel = CVR.consistent_sampling(cards, cons)
     except Exception as e:  # noqa
         return {"exc": f"{type(e).__name__}: {str(e)[:60]}"}
@@ -193,6 +202,10 @@ def judge_seed(seed, n):
     CVR.assign_sample_nums(again, SHA256(seed))
     if [c.sample_num for c in stale] != want[:n] or [c.sample_num for c in again] != want[:n]:
         out.append(("C07|sample-nums|depend-on-previous-numbers", f"seed {seed!r}: cards that already carried a sample number do not get the seeded stream"))
+    mixed = [CVR(id=f"m{i}", votes={}, phantom=(i % 2 == 0)) for i in range(n)]  # phantoms in front of real cards
+    CVR.assign_sample_nums(mixed, SHA256(seed))
+    if [c.sample_num for c in mixed] != want[:n]:
+        out.append(("C07|sample-nums|depend-on-contents", f"seed {seed!r}: numbers depend on which records are phantoms"))
     if len(set(c.sample_num for c in longer)) != n + 3:
         out.append(("C07|sample-nums|not-distinct", f"seed {seed!r}: repeated sample numbers"))
     return out
